@@ -119,6 +119,16 @@ def replay(rec, case):
                          [list(x) for x in got])
                 return
         return
+    if i.get("aged"):
+        from ..engines.zygote import Zygote
+        warm, _ = aged_material(i["aged"], i.get("aged_seed", 1))
+        zyg = Zygote()
+        try:
+            warm()
+            run_aged_point(zyg, rec, i["aged"], i.get("aged_seed", 1), i["calls"][0], i["calls"][1], i["loc_points"][0][1])
+        finally:
+            zyg.close()
+        return
     if i.get("loc_points"):
         # same pre-state as in the exploration (calls run alone, call 0 traced), and the schedule a few times in a row:
         # single-slot memos make the outcome depend on which call ran last
@@ -611,6 +621,106 @@ def shard_aged(arg):
     return rec
 
 
+AGED_N = {"lookup": 140000, "iban": 70000}
+
+
+def aged_material(kind, seed):
+    """(warm-up thunk, held-out never-seen call descriptors). The warm-up fills whatever bounded memo the library keeps with
+    AGED_N distinct calls of the kind (more than 2^17 lookups / 2^16 validations); the held-out calls are distinct from all of
+    them, so each one misses - and evicts."""
+    import random
+    rng = random.Random(f"{seed}:C14:aged-material:{kind}")
+    st, g, o = state(), gen(), oracle()
+    if kind == "lookup":
+        keys = list(st["keys"])
+        rng.shuffle(keys)
+        held = [{"op": "from_bank_code", "cc": cc, "code": code} for cc, code in keys[:160]]
+        rest = keys[160:]
+
+        def warm():
+            from ..lib import BIC, SchwiftyException
+            n = 0
+            for cc, code in rest:
+                try:
+                    BIC.from_bank_code(cc, code)
+                except SchwiftyException:
+                    pass
+                n += 1
+            i = 0
+            while n < AGED_N[kind]:
+                try:
+                    BIC.from_bank_code("DE", f"9{i:07d}")       # distinct codes no registry lists
+                except SchwiftyException:
+                    pass
+                i += 1
+                n += 1
+            return n
+        return warm, held
+    ccs = o.countries()
+    r2 = random.Random(f"{seed}:C14:aged-held:{kind}")
+    held = [{"op": "iban", "text": g.iban(r2.choice(ccs), r2), "validate_bban": True} for _ in range(160)]
+    seen = {d["text"] for d in held}
+
+    def warm():
+        from ..lib import IBAN, SchwiftyException
+        r = random.Random(f"{seed}:C14:aged-warm")
+        n = 0
+        while n < AGED_N[kind]:
+            t = g.iban(r.choice(ccs), r)
+            if t in seen:
+                continue
+            try:
+                IBAN(t, validate_bban=(n % 4 == 0))
+            except SchwiftyException:
+                pass
+            n += 1
+        return n
+    return warm, held
+
+
+def run_aged_point(zyg, rec, kind, seed, A, B, L):
+    want = [["ok", zyg.reference(A)], ["ok", zyg.reference(B)]]
+    got, info = sched.run_concurrently([make_call(A), make_call(B)], [], repo_root(), loc_points=[(0, L, 1, 1)])
+    rec.evals += 1
+    rec.classes["aged-process-schedules"] += 1
+    if info["switches"]:
+        rec.nt.add(hash((json.dumps([A, B], sort_keys=True), L, "aged")))
+    got = json.loads(json.dumps([list(x) for x in got]))
+    if got != json.loads(json.dumps(want)):
+        rec.fail(f"interference|{A['op']}|with:{B['op']}|aged-process", "concurrent_equals_alone",
+                 {"calls": [A, B], "loc_points": [[0, L, 1, 1]], "schedule": [], "origin": "aged-process", "aged": kind, "aged_seed": seed,
+                  "warm_up": f"{AGED_N[kind]} distinct calls of the kind before the pair"}, want, got)
+        return False
+    return True
+
+
+def shard_aged_pairs(arg):
+    """An old process: after more distinct calls than any plausible memo holds, two never-seen calls of the same kind run
+    concurrently, with a switch at every location of the first one (a fresh pair per location). Expected outcomes come from
+    single calls in forks of the pristine zygote."""
+    kind, seed, tier = arg
+    from ..engines.zygote import Zygote
+    rec = Rec()
+    start_budget(tier, quick_s=60, thorough_s=300)
+    warm, held = aged_material(kind, seed)
+    zyg = Zygote()
+    try:
+        warm()
+        _, locs = sched.trace_locations(make_call(held[0]), repo_root())
+        k = 1
+        for rep in range(1 if tier == "quick" else 3):
+            for L in locs:
+                if out_of_budget(rec) or k + 1 >= len(held):
+                    break
+                if not run_aged_point(zyg, rec, kind, seed, held[k], held[k + 1], L):
+                    break
+                k += 2
+        rec.sample("aged-process", {"kind": kind, "warm_up_calls": AGED_N[kind], "locations": len(locs)})
+    finally:
+        zyg.close()
+    return rec
+
+
 _OWN = []
 
 
@@ -783,8 +893,9 @@ def run(ctx):
     ctx.pmap(shard_locations, [(i, ctx.seed, ctx.tier) for i in range(16)])
     ctx.pmap(shard_two_point, [(i, ctx.seed, ctx.tier) for i in range(16)])
     ctx.pmap(shard_cold, [(i, ctx.seed, ctx.tier) for i in range(16)] + [("aged", i, ctx.seed, ctx.tier) for i in range(16)])
+    ctx.pmap(shard_aged_pairs, [(kind, ctx.seed, ctx.tier) for kind in AGED_N])
     ctx.pmap(shard_national, [(cc, ctx.seed, ctx.tier) for cc in NATIONAL])
     ctx.pmap(shard_mixed, [(i, ctx.seed, ctx.tier) for i in range(16 if ctx.quick else 32)])
     ctx.hyp_parallel(strategy, hyp_body, ctx.pick(640, 12000), name="C14-hyp")
-    ctx.require_classes("two-point-schedules", "two-point-size-extreme", "failing-prelude", "burst-while-paused-schedules", "loc-warm-schedules", "loc-cold-schedules", "loc-cold-pair", "mixed", "hyp", "random-2-threads", "random-3-threads", "random-national",
+    ctx.require_classes("aged-process-schedules", "two-point-schedules", "two-point-size-extreme", "failing-prelude", "burst-while-paused-schedules", "loc-warm-schedules", "loc-cold-schedules", "loc-cold-pair", "mixed", "hyp", "random-2-threads", "random-3-threads", "random-national",
                         *[f"enum-{m}" for m in st["impl"]], *[f"enum-national-{cc}" for cc in NATIONAL])
